@@ -82,6 +82,53 @@ Theorem C02_sig_ok_sound : forall r s recid sig, sig_ok r s recid sig = true ->
 Proof. exact sig_ok_sound. Qed.
 Print Assumptions C02_sig_ok_sound.
 
+(* ---- a signing session and its batch ------------------------------------------------------------
+   [session_ok] is the judge used on what the real Executor.Execute did in a session (the batch the
+   session id stands for, the 32 bytes the submitted signature is a signature of, the batch that was
+   submitted with it).  For EVERY hash function with 32-byte output: if the judge accepts, then the
+   value handed to signing is the EIP-712 digest of the session's batch, the submitted batch hashes
+   to the value that was signed, and the submitted batch IS the session's batch - same proposals,
+   same order, nothing left out or added - unless the two computations exhibit a collision of H. *)
+Theorem C02_signed_is_submitted :
+  forall (H : list N -> list N), (forall x, List.length (H x) = 32%nat) ->
+  forall d s,
+    wf_domain d = true -> forallb wf_proposal (s_batch s) = true ->
+    forallb wf_proposal (s_submitted s) = true ->
+    session_ok H d s = true ->
+    s_signed s = digest H d (s_batch s) /\ digest H d (s_submitted s) = s_signed s /\
+    (s_submitted s = s_batch s \/ exists x y, x <> y /\ H x = H y).
+Proof. exact signed_is_submitted. Qed.
+Print Assumptions C02_signed_is_submitted.
+
+(* the judge accepts exactly when both digests are the signed value (no hypothesis at all) ... *)
+Theorem C02_session_ok_iff :
+  forall H d s, session_ok H d s = true <->
+    (digest H d (s_batch s) = s_signed s /\ digest H d (s_submitted s) = digest H d (s_batch s)).
+Proof. exact session_ok_iff. Qed.
+Print Assumptions C02_session_ok_iff.
+
+(* ... and it accepts the executors as modelled (hash the batch, sign that value, submit the batch)
+   for every hash function, destination and batch *)
+Theorem C02_session_ok_model :
+  forall H d b, session_ok H d (model_session H d b) = true.
+Proof. exact session_ok_model. Qed.
+Print Assumptions C02_session_ok_model.
+
+(* ---- the digest is a function of its arguments only, whatever was hashed before or at the same time:
+   the judge [multi_ok ds seen] (ds = the model digests of some argument tuples, seen = every answer the
+   implementation gave for tuple number i during a history / under concurrent use) accepts iff every
+   answer for tuple i is ds[i]; a function of the arguments is accepted for every history. *)
+Theorem C02_multi_ok_sound :
+  forall ds seen, multi_ok ds seen = true -> forall i x, In (i, x) seen -> nth_error ds i = Some x.
+Proof. exact multi_ok_sound. Qed.
+Print Assumptions C02_multi_ok_sound.
+
+Theorem C02_multi_ok_model :
+  forall ds idxs, (forall i, In i idxs -> (i < List.length ds)%nat) ->
+    multi_ok ds (map (fun i => (i, nth i ds [])) idxs) = true.
+Proof. exact multi_ok_model. Qed.
+Print Assumptions C02_multi_ok_model.
+
 (* Non-vacuity: the vector pinned in chains/proposal_test.go, computed by the model over the Gallina
    keccak-256; a short-r signature. *)
 Example C02_nonvacuous :
@@ -91,4 +138,29 @@ Example C02_nonvacuous :
   wf_proposal p = true /\ wf_domain (bridge_domain 5 substrate_contract) = true /\
   digest keccak256 (bridge_domain 5 substrate_contract) [p] = unhex "de7b5c9e087ab4f5fb0e9f73a7e5bd0bdf9eeb04aabbd0e8f8de58a204a33e55" /\
   sig_assemble 1 (2 ^ 255) 1 = Some (repeat 0 31 ++ [1] ++ [128] ++ repeat 0 31 ++ [28]).
+Proof. vm_compute. repeat split. Qed.
+
+(* Non-vacuity of the session statements.  With keccak-256, an EVM destination and proposals q1, q2
+   (empty data) the hypotheses of C02_signed_is_submitted hold for the session as the executors run
+   it.  That the judge discriminates is shown with a cheap 32-byte mixing function in place of
+   keccak (the statements hold for every H): a session that submits only [q1] with the signature over
+   the digest of [q1; q2] (a member left out after signing), one that submits the members in another
+   order, and one whose signed value is the digest of another batch are rejected.  For the
+   function-of-the-arguments judge: a history A, B, A is accepted with A's digest for both A queries
+   and rejected when the second A query is answered with B's digest. *)
+Example C02_session_nonvacuous :
+  let q1 := {| p_origin := 1; p_nonce := 7; p_rid := repeat 3 32; p_data := [] |} in
+  let q2 := {| p_origin := 1; p_nonce := 8; p_rid := repeat 3 32; p_data := [] |} in
+  let d := bridge_domain 5 (repeat 17 20) in
+  let M := 2 ^ 256 in
+  let mix := fun x : list N => u256 (fold_left (fun a b => a * 3 + b + 1) x 0 mod M) in
+  let D := digest mix d [q1; q2] in
+  wf_domain d = true /\ forallb wf_proposal [q1; q2] = true /\
+  session_ok keccak256 d (model_session keccak256 d [q1; q2]) = true /\
+  session_ok mix d (model_session mix d [q1; q2]) = true /\
+  session_ok mix d {| s_batch := [q1; q2]; s_signed := D; s_submitted := [q1] |} = false /\
+  session_ok mix d {| s_batch := [q1; q2]; s_signed := D; s_submitted := [q2; q1] |} = false /\
+  session_ok mix d {| s_batch := [q1]; s_signed := D; s_submitted := [q1] |} = false /\
+  multi_ok [[1]; [2]] [(0%nat, [1]); (1%nat, [2]); (0%nat, [1])] = true /\
+  multi_ok [[1]; [2]] [(0%nat, [1]); (1%nat, [2]); (0%nat, [2])] = false.
 Proof. vm_compute. repeat split. Qed.
